@@ -674,3 +674,36 @@ package keeper
 //@   props C20
 //@   pure
 //@   ensures err == nil ==> poHas(ent_store, req.PurchaseOrderId) && resp.PurchaseOrder == poGet(ent_store, req.PurchaseOrderId)
+
+// ================================================================ genesis export (C15): the order listing
+//
+// All stored orders, each once, in ascending id order, decoded as stored (iteration helper executed at the call site,
+// its loop cut by the invariant below; assumed store-iterator semantics).
+//@ func Keeper.IteratePurchaseOrders(ctx, cb)
+//@   inline
+//@ func Keeper.GetAllPurchaseOrders(ctx) (purchaseOrders)
+//@   props C15
+//@   pure
+//@   requires forall i int :: {ent_store[kPO(i)]} poHas(ent_store, i) ==> 0 <= i && i < 2^64 && poGet(ent_store, i).Id == i
+//@   ensures @ascending forall i int, j int :: {purchaseOrders[i], purchaseOrders[j]} 0 <= i && i < j && j < len(purchaseOrders) ==> purchaseOrders[i].Id < purchaseOrders[j].Id
+//@   ensures @as_stored forall j int :: {purchaseOrders[j]} 0 <= j && j < len(purchaseOrders) ==> poHas(ent_store, purchaseOrders[j].Id) && purchaseOrders[j] == poGet(ent_store, purchaseOrders[j].Id)
+//@   ensures @all_stored forall x uint64 :: {ent_store[kPO(x)]} poHas(ent_store, x) ==> exists j int :: 0 <= j && j < len(purchaseOrders) && purchaseOrders[j].Id == x
+//@   loop IteratePurchaseOrders.0: invariant it_store == ent_store && ent_store == old(ent_store) && len(purchaseOrders) >= 0
+//@   loop IteratePurchaseOrders.0: invariant it_valid ==> poHas(ent_store, poKeyId(it_key)) && it_key == kPO(poKeyId(it_key))
+//@   loop IteratePurchaseOrders.0: invariant forall i int, j int :: {purchaseOrders[i], purchaseOrders[j]} 0 <= i && i < j && j < len(purchaseOrders) ==> purchaseOrders[i].Id < purchaseOrders[j].Id
+//@   loop IteratePurchaseOrders.0: invariant forall j int :: {purchaseOrders[j]} 0 <= j && j < len(purchaseOrders) ==> poHas(ent_store, purchaseOrders[j].Id) && purchaseOrders[j] == poGet(ent_store, purchaseOrders[j].Id) && (it_valid ==> purchaseOrders[j].Id < poKeyId(it_key))
+//@   loop IteratePurchaseOrders.0: invariant forall x uint64 :: {ent_store[kPO(x)]} poHas(ent_store, x) && (!it_valid || x < poKeyId(it_key)) ==> exists j int :: 0 <= j && j < len(purchaseOrders) && purchaseOrders[j].Id == x
+
+// the other genesis listings are read-only; what they list is not under contract (address-keyed sections)
+//@ func Keeper.GetAllLockedUnds(ctx) (r)
+//@   props C15
+//@   pure
+//@ func Keeper.GetAllSpentEFUNDs(ctx) (r)
+//@   props C15
+//@   pure
+//@ func Keeper.IterateWhitelist(ctx, cb)
+//@   inline
+//@ func Keeper.GetAllWhitelistedAddresses(ctx) (r)
+//@   props C15
+//@   pure
+//@   loop IterateWhitelist.0: invariant it_store == ent_store && ent_store == old(ent_store)
